@@ -24,6 +24,8 @@ from .core import Discard, Violation, canon, rhash
 ROOT = os.path.dirname(os.path.dirname(os.path.abspath(__file__)))
 REPO = os.environ.get("VERIF_REPO", "/repo")
 NPROC = int(os.environ.get("VERIF_NPROC", "16"))
+EVIDENCE_DIR = os.environ.get("VERIF_EVIDENCE_DIR") or os.path.join(ROOT, "evidence")
+REPLAY_DIR = os.environ.get("VERIF_REPLAY_DIR") or os.path.join(ROOT, "replays")
 
 
 def mix(seed, *parts):
@@ -304,7 +306,7 @@ def run_property(pid, tier="quick", seed=1, only=None, out=sys.stdout):
         if ent is not None:
             known_hits.append((ent, f))
             continue
-        rdir = os.path.join(ROOT, "replays", pid)
+        rdir = os.path.join(REPLAY_DIR, pid)
         os.makedirs(rdir, exist_ok=True)
         path = os.path.join(rdir, rhash([subn, f["recipe"]]) + ".json")
         with open(path, "w") as fh:
@@ -358,9 +360,9 @@ def run_property(pid, tier="quick", seed=1, only=None, out=sys.stdout):
         assumptions=list(getattr(mod, "ASSUMPTIONS", [])),
         wall_s=round(wall, 2), violations=len(violations),
     )
-    os.makedirs(os.path.join(ROOT, "evidence"), exist_ok=True)
+    os.makedirs(EVIDENCE_DIR, exist_ok=True)
     if not only:
-        with open(os.path.join(ROOT, "evidence", pid + ".json"), "w") as fh:
+        with open(os.path.join(EVIDENCE_DIR, pid + ".json"), "w") as fh:
             json.dump(ev, fh, indent=1, default=str)
 
     # report
